@@ -100,8 +100,12 @@ func (ex *Exec) load(st *State, l *Loc) *Term {
 		return ex.loadStruct(st, l.Keys[0], l.Elem)
 	}
 	t := ex.get(st, l.Comp, l.CompSort)
-	for _, k := range l.Keys {
-		t = Select(t, k)
+	if l.SlIdx != nil && len(l.Keys) == 2 {
+		t = ex.slAt(Select(t, l.Keys[0]), l.SlOff, l.SlIdx)
+	} else {
+		for _, k := range l.Keys {
+			t = Select(t, k)
+		}
 	}
 	for _, p := range l.Path {
 		if p.At != nil {
